@@ -334,6 +334,11 @@ func (f *File) enterWriteMode() error {
 				"",
 				true,
 			); err != nil {
+				// Don't keep what could be restored: a later write or close must not flush content that wasn't accepted
+				_ = f.writeBuf.Close()
+				_ = f.cleanWriteBuf()
+				f.writeBuf = nil
+
 				return err
 			}
 		}
